@@ -811,6 +811,73 @@ func twinTemplate(r *Rng, ver string) []string {
 	return h.resolveArgs(r, sets)
 }
 
+// controlVariantTemplate: whether a membership event is a CONTROL event (a leave / ban of somebody else: resolved before
+// the ordinary events) hangs on the member named exactly `membership` — not on `Membership` / `memberſhip`, which
+// encoding/json would match too.  @mod bans @bob on one branch (content {"membership":"ban","memberſhip":"invite"}, or
+// the variant before / instead of the exact member); on the other branch @bob, still joined, sets the topic at an EARLIER
+// timestamp.  With the ban a control event the topic is checked after it and dropped; were the ban read as an invite it
+// would be ordered after the topic by timestamp and the topic would stay.
+func controlVariantTemplate(r *Rng, ver string) []string {
+	g := NewRoomGen(r, ver)
+	h := &History{G: g, ByID: map[string]*Ev{}, Rejected: map[string]bool{}}
+	verImpl := gmsl.MustGetRoomVersion(gmsl.RoomVersion(ver))
+	a, m, b := "@creator:hs1", "@mod:hs1", "@bob:hs2"
+	cc := map[string]interface{}{"room_version": ver}
+	if !verImpl.PrivilegedCreators() {
+		cc["creator"] = a
+	}
+	create := g.MkCreate(a, cc)
+	if create == nil {
+		return nil
+	}
+	h.All = append(h.All, create)
+	h.ByID[create.ID] = create
+	root := &Branch{State: map[gmsl.StateKeyTuple]*Ev{{EventType: "m.room.create", StateKey: ""}: create}, Tip: create.ID, Depth: 1}
+	ts := 10
+	send := func(br *Branch, typ, sender, sk string, content interface{}) *Ev {
+		ts += 1 + r.Intn(2)
+		return h.Force(br, typ, sender, sk, content, ts)
+	}
+	send(root, "m.room.member", a, a, map[string]interface{}{"membership": "join"})
+	users := map[string]interface{}{m: 50}
+	if !verImpl.PrivilegedCreators() {
+		users[a] = 100
+	}
+	send(root, "m.room.power_levels", a, "", map[string]interface{}{"users": users, "users_default": 0, "state_default": 50, "events_default": 0,
+		"events": map[string]interface{}{"m.room.topic": 0}, "ban": 50, "kick": 50, "invite": 0})
+	send(root, "m.room.join_rules", a, "", map[string]interface{}{"join_rule": "public"})
+	send(root, "m.room.member", m, m, map[string]interface{}{"membership": "join"})
+	send(root, "m.room.member", b, b, map[string]interface{}{"membership": "join"})
+	b1, b2 := root.clone(), root.clone()
+	topic := send(b2, "m.room.topic", b, "", map[string]interface{}{"topic": "bob was here"})
+	exact := Pick(r, []string{"ban", "ban", "leave"})
+	other := Pick(r, []string{"invite", "join", "knock"})
+	var mc map[string]interface{}
+	switch r.Intn(5) {
+	case 0: // the variant before the exact member (upper-case letters sort before the lower-case ones)
+		mc = map[string]interface{}{"membership": exact, Pick(r, []string{"Membership", "MEMBERSHIP", "membershiP"}): other}
+	case 1: // the variant alone: no membership at all (no control event, and refused by the auth rules)
+		mc = map[string]interface{}{Pick(r, []string{"Membership", "memberſhip"}): exact}
+	default: // the variant after the exact member (U+017F sorts after every ASCII letter): a folded reader takes it
+		mc = map[string]interface{}{"membership": exact, "memberſhip": other}
+	}
+	ban := send(b1, "m.room.member", m, b, mc)
+	if topic == nil || ban == nil {
+		return nil
+	}
+	h.Branches = []*Branch{b1, b2}
+	var sets [][]*Ev
+	for _, br := range h.Branches {
+		var set []*Ev
+		for _, e := range br.State {
+			set = append(set, e)
+		}
+		sort.Slice(set, func(i, j int) bool { return set[i].ID < set[j].ID })
+		sets = append(sets, set)
+	}
+	return h.resolveArgs(r, sets)
+}
+
 // genStateResTwice: "on every run of the process" — one op resolves history A around a history B that re-uses A's event IDs
 // with other power-levels contents (order B, A, B, A; room versions 1 and 2: the sender chooses the IDs).
 func genStateResTwice(o *Out, tier string, r *Rng) {
@@ -861,6 +928,22 @@ func genStateRes(o *Out, tier string, r *Rng) {
 				res := o.Do("resolve", args...)
 				o.Do("resolve_props", append([]string{args[0], "new:" + hx([]byte(res))}, args[1:]...)...)
 				o.Count("twin.template")
+			}
+		}
+	}
+	{
+		// the control-event test reads the member named exactly `membership`
+		tr := &Rng{s: r.Next()}
+		k := 8
+		if tier == "thorough" {
+			k = 120
+		}
+		for i := 0; i < k; i++ {
+			ver := Pick(tr, []string{"2", "6", "10", "11", "12", "org.matrix.hydra.11"})
+			if args := controlVariantTemplate(tr, ver); args != nil {
+				res := o.Do("resolve", args...)
+				o.Do("resolve_props", append([]string{args[0], "new:" + hx([]byte(res))}, args[1:]...)...)
+				o.Count("control-variant.template")
 			}
 		}
 	}
